@@ -110,6 +110,28 @@ Section Drops.
     intros F. destruct ibase as [T0 [C0 _]].
     destruct (root_commits_with_drops evs minit [] (conj T0 (conj C0 (conj I (fun _ => eq_refl)))) F) as [T [C _]]. auto.
   Qed.
+
+  (* ---------- reads while a batch is pending ----------
+     Module.GetState / FindStates / GetStateProof open a NEW trie from the hash of the requested root over the store
+     (module.go): whatever they compute is a function [q] of the stored trie.  A batch that is applied and not
+     finalised (the window between AddMPTBatch and UpdateCurrentLocal, or a refused block until the next one) changes
+     [m_mem] and [m_root] only: every read answers as before it, i.e. from the storage of the accepted blocks. *)
+  Definition read_committed {A} (q : trie -> A) (s : mst) : A := q (m_stored s).
+  Definition read_shared {A} (q : trie -> A) (s : mst) : A := q (m_mem s).     (* the "optimisation": shallow copy of s.mpt *)
+
+  Lemma pending_keeps_stored p s ws m : m_stored (mstep p s (MRej ws m)) = m_stored s.
+  Proof. reflexivity. Qed.
+
+  Theorem reads_ignore_pending_batch : forall A (q : trie -> A) p evs s st ws m,
+    p = PFlag -> minv st s -> Forall mev_ok evs ->
+    let s1 := mrun p s evs in
+    read_committed q (mstep p s1 (MRej ws m)) = read_committed q s1 /\
+    read_committed content (mstep p s1 (MRej ws m)) = storage_after st (accepted evs).
+  Proof.
+    intros A q p evs s st ws m -> I F s1. split; [reflexivity|].
+    unfold read_committed. rewrite pending_keeps_stored.
+    destruct (root_commits_with_drops evs s st I F) as [_ [C _]]. exact C.
+  Qed.
 End Drops.
 
 (* ---------- over the concrete trie of C10 ---------- *)
@@ -172,3 +194,28 @@ Lemma dw_flag :
   ccontent (m_stored T.node T.bytes (cmrun dH PFlag dw_evs)) = [([241], [1]); ([242], [2]); ([244], [4])] /\
   match m_stored T.node T.bytes (cmrun dH PFlag (firstn 1 dw_evs)) with T.Ext [15%nat] (T.Branch _ _) => True | _ => False end.
 Proof. split; vm_compute; auto. Qed.
+
+(* ---------- reads inside the window, over the concrete trie ---------- *)
+Theorem reads_ignore_pending_batch_concrete (H : T.bytes -> T.bytes) evs ws m :
+  Forall (mev_ok cok) evs ->
+  ccontent (m_stored T.node T.bytes (cmrun H PFlag (evs ++ [MRej ws m]))) = storage_after [] (accepted evs).
+Proof.
+  intros F. unfold cmrun, mrun. rewrite fold_left_app. cbn [fold_left].
+  rewrite pending_keeps_stored. apply (root_commits_with_drops_concrete H evs F).
+Qed.
+
+(* reading the latest root through the module's in-memory trie object (a shallow copy shares its nodes with the copy
+   AddMPTBatch works on): false.  Witness: F1, F2 accepted, F3 pending — the read sees F3 *)
+Definition shared_read_statement (H : T.bytes -> T.bytes) : Prop :=
+  forall evs ws m, Forall (mev_ok cok) (evs ++ [MRej ws m]) ->
+    read_shared T.node T.bytes ccontent (cmrun H PFlag (evs ++ [MRej ws m])) = storage_after [] (accepted evs).
+
+Theorem shared_read_refuted : ~ shared_read_statement dH.
+Proof.
+  intros S.
+  specialize (S (firstn 1 dw_evs) [([243], Some [3])] [([112; 243], Some [3])]).
+  assert (F : Forall (mev_ok cok) (firstn 1 dw_evs ++ [MRej [([243], Some [3])] [([112; 243], Some [3])]])).
+  { pose proof dw_ok as K. unfold dw_evs in K. cbn [firstn app].
+    constructor; [exact (Forall_inv K)|]. constructor; [exact (Forall_inv (Forall_inv_tail K))|constructor]. }
+  specialize (S F). vm_compute in S. discriminate.
+Qed.
